@@ -2315,3 +2315,26 @@ def c16_race_search(meta, seed, budget):
         for sc in itertools.product(states, repeat=ln):
             for outcome in ("returns", "raises"):
                 yield {"script": list(sc), "outcome": outcome}
+
+
+@runner("c09:disk_usage")
+def c09_disk_usage(model, meta):
+    from psutil import _psposix
+    names = ("f_bsize", "f_frsize", "f_blocks", "f_bfree", "f_bavail", "f_files", "f_ffree", "f_favail", "f_flag", "f_namemax")
+    dflt = {"f_bsize": 1048576, "f_frsize": 4096, "f_blocks": 1000000, "f_bfree": 400000, "f_bavail": 350000}
+    vals = {k: int(model.get(k, dflt.get(k, 7))) for k in names}
+    if vals["f_bfree"] > vals["f_blocks"]:
+        vals["f_bfree"] = vals["f_blocks"]
+    st = collections.namedtuple("statvfs", names)(**vals)
+    with mock.patch.object(os, "statvfs", lambda p: st):
+        try:
+            res, exc = _psposix.disk_usage("/"), None
+        except Exception as e:  # noqa: BLE001
+            res, exc = None, e
+    return {"env": dict(vals, path="/"), "result": res, "exc": exc}
+
+
+@search("c09:disk_usage")
+def c09_disk_usage_search(meta, seed, budget):
+    yield {}
+    yield {"f_bsize": 65536, "f_frsize": 512, "f_blocks": 10, "f_bfree": 5, "f_bavail": 3}
